@@ -7,8 +7,9 @@ from rules import PL
 from props.C04 import call_results, agg_field_operands
 
 META = {
+    "explanation_r6": "Also (round 6): a process found by refresh (lookup Ok) is always recorded through on_start before the service's iteration ends (C19.refresh.found).",
     "explanation_more": "Also (round 5): refresh looks the process up whatever status is recorded except Removed (C19.refresh.lookup); 'a removed service stays removed' is decided from the head of the per-service iteration.",
-    "explanation_more": 'Also (round 4): after the new definition was installed every outcome of upgrade records the new version (C19.upgrade.version.always).',
+    "explanation_more2": 'Also (round 4): after the new definition was installed every outcome of upgrade records the new version (C19.upgrade.version.always).',
     "explanation": "Decides: (1) NodeServiceData.status and .pid are assigned only in NodeService::{on_start,on_stop,on_remove}; NodeServiceData "
                    "literals exist only in add_node (status Added, pid None) and local::run_node (status Running with the pid the freshly "
                    "spawned node reported over RPC); (2) every call of on_start — ServiceManager::start and both branches of "
